@@ -5,6 +5,7 @@
 package main
 
 import (
+	"sync"
 	"crypto/sha256"
 	"encoding/json"
 	"fmt"
@@ -216,10 +217,33 @@ func main() {
 		forge(a, w, rng, res)
 	case "honest":
 		honest(a, w, rng, res)
+	case "streams":
+		streams(a, w, rng, res)
 	default:
 		hx.Fatal("unknown subcommand")
 	}
 	res.Write(a.Out)
+}
+
+var (
+	hostMu   sync.Mutex
+	hostSigs = map[string]*gabi.CLSignature{}
+)
+
+// a fresh CLSignature object holding a genuine signature of key k on the block (signed once per key and block, copied per use)
+func hostSignature(w *world, k int, blkID any, blk []*big.Int) *gabi.CLSignature {
+	key := fmt.Sprint(k, "/", blkID)
+	hostMu.Lock()
+	t := hostSigs[key]
+	if t == nil {
+		var err error
+		if t, err = gabi.SignMessageBlock(w.kps[k].SK, w.kps[k].PK, blk); err != nil {
+			hx.Fatal("host signature: %v", err)
+		}
+		hostSigs[key] = t
+	}
+	hostMu.Unlock()
+	return &gabi.CLSignature{A: new(big.Int).Set(t.A), E: new(big.Int).Set(t.E), V: new(big.Int).Set(t.V)}
 }
 
 func forge(a *hx.Args, w *world, rng *mrand.Rand, res *hx.Result) {
@@ -262,6 +286,7 @@ func forge(a *hx.Args, w *world, rng *mrand.Rand, res *hx.Result) {
 		}
 		sig := w.forge(ks, e, sblk, sksp, r)
 		var ok bool
+		var final *gabi.CLSignature
 		panicked, msg := hx.Try(func() {
 			s := sig
 			for j := 0; j < c.Nrand; j++ {
@@ -274,12 +299,35 @@ func forge(a *hx.Args, w *world, rng *mrand.Rand, res *hx.Result) {
 				s.KeyshareP = big.Convert(cksp)
 			}
 			ok = s.Verify(w.kps[kc].PK, cblk)
+			final = s
 		})
 		b, _ := json.Marshal(c)
 		res.Eval(hx.Digest(b))
 		if panicked {
 			res.Violation("verify-panic", "CLSignature.Verify panicked: "+msg, hx.M{"case": c})
 			return
+		}
+		// the same content in an object with a history: a genuine signature of the checking key on the checked block is
+		// verified (accepted), then changed field by field (big integers in place) into this case's signature and verified again
+		{
+			var okHost, okReused bool
+			panicked, msg = hx.Try(func() {
+				host := hostSignature(w, kc, c.Chk.Blk, cblk)
+				okHost = host.Verify(w.kps[kc].PK, cblk)
+				hx.Overwrite(host, final)
+				okReused = host.Verify(w.kps[kc].PK, cblk)
+			})
+			res.Count(fmt.Sprintf("reused-object:agrees=%v", okReused == ok))
+			switch {
+			case panicked:
+				res.Violation("verify-panic", "CLSignature.Verify on an object that was verified before panicked: "+msg, hx.M{"case": c})
+				return
+			case !okHost:
+				hx.Fatal("the host signature of the object-history replay does not verify")
+			case okReused != ok:
+				res.Violation("verdict-depends-on-object-history", fmt.Sprintf("the same signature content is judged %v in a fresh CLSignature object but %v in an object that was verified before (accepted, then overwritten in place)", ok, okReused), hx.M{"case": c})
+				return
+			}
 		}
 		// the facts, established by the harness itself
 		P := w.kps[ks].PK.Params
